@@ -690,7 +690,13 @@ func (r *c09Runner) Step(toks []string, o *Oracle) string {
 			// pending and is only accounted when the schedule picks it. If the property holds
 			// this is invisible: the blocked action runs as soon as its dependency commits, on
 			// accounts nobody else may touch before this transaction commits.
-			if kind == "s" && tokNow%5 == 0 {
+			anyPending := false
+			for _, pd := range pending {
+				anyPending = anyPending || pd
+			}
+			// (one pending action at a time: a pending Commit may already have happened for
+			// real, which would unblock a second probed transaction)
+			if kind == "s" && tokNow%5 == 0 && !anyPending {
 				for q := n - 1; q >= 0; q-- {
 					if q == pick || committed[q] || pending[q] || enabled(q) {
 						continue
